@@ -39,7 +39,7 @@ Proof. intros H. apply starts_with_iff in H as [r ->]. rewrite app_length. lia. 
 
 Lemma ends_with_iff p s : ends_with p s = true <-> exists a, s = a ++ p.
 Proof.
-  unfold ends_with. rewrite starts_with_iff. split.
+  unfold ends_with. rewrite <- !rev_alt. rewrite starts_with_iff. split.
   - intros [r H]. exists (rev r). apply (f_equal (@rev N)) in H.
     rewrite rev_involutive, rev_app_distr, rev_involutive in H. exact H.
   - intros [a ->]. exists (rev a). now rewrite rev_app_distr.
